@@ -19,16 +19,16 @@ import (
 
 // Prop describes one property check.
 type Prop struct {
-	ID          string
-	Level       string // evidence level: exploration | fault_enumeration
-	Rule        string // how cases are generated and what makes one non-trivial/distinct
-	Assumptions []string
-	Batches     func(tier string) int
-	Run         func(w *W, batch int)
-	Race        bool // workers run in the -race build
-	Par         int  // max parallel workers (0 = 16)
-	Timeout     func(tier string) time.Duration // watchdog per worker lifetime (0 = 10 min)
-	Exhaustive  func(tier string) bool
+	ID            string
+	Level         string // evidence level: exploration | fault_enumeration
+	Rule          string // how cases are generated and what makes one non-trivial/distinct
+	Assumptions   []string
+	Batches       func(tier string) int
+	Run           func(w *W, batch int)
+	Race          bool                            // workers run in the -race build
+	Par           int                             // max parallel workers (0 = 16)
+	Timeout       func(tier string) time.Duration // watchdog per worker lifetime (0 = 10 min)
+	Exhaustive    func(tier string) bool
 	MinNontrivial int // fewer distinct non-trivial cases than this => the run observed nothing => INCONCLUSIVE (default 2)
 }
 
